@@ -203,7 +203,8 @@ def evaluate(script, tr):
                                              case=script, expected=sent[:len(got)], got=got, key=dict(key, **{"class": "not-fifo"})))
                     return vs
         elif c == "z":
-            if closed_seen and int(res) != 0:
+            # not part of C08's statement (C06 owns goroutine exit): recorded, compared with the model, no violation
+            if False and closed_seen and int(res) != 0:
                 vs.append(vlib.Violation("impl", "New(cap=%d): %s goroutine(s) alive after the receive side closed" % (cap, res), case=script, key=dict(key, **{"class": "leak"})))
     # the scripts end with more receives than values: after cancel/close the close must have been seen
     if ended is not None and tr.complete and tr.moves[-1] == "z" and not closed_seen:
